@@ -3,6 +3,7 @@ package props
 import (
 	"fmt"
 	"math/rand"
+	"strings"
 
 	"verifharness/adapt"
 	"verifharness/model"
@@ -17,7 +18,7 @@ type c02 struct{ base }
 
 func init() {
 	runner.Register(&c02{base{id: "C02", level: "exploration",
-		rule: "per case: a table state reached by a seeded write history (<=18 keys over 3 partitions whose names share prefixes, sort keys that are prefixes of one another, 2 index-hash x 3 index-range values so ties are the norm), then a request matrix: every source {base, hash-only GSI, hash+range GSI, LSI} x every partition value incl. an absent one x sort-key condition {none,=,<,<=,>,>=,BETWEEN,begins_with} with boundary operands x filter {none, 2 typed random filters} x direction; plus Scans of every source with filters. Oracle: model set + non-decreasing/non-increasing sort key + Count=len(Items). non-trivial = result has >=2 items or excludes >=1 item of the addressed partition; distinct by (adapter, source, condition kind, filter skeleton, direction, result size class).",
+		rule:        "per case: a table state reached by a seeded write history (<=18 keys over 3 partitions whose names share prefixes, sort keys that are prefixes of one another, 2 index-hash x 3 index-range values so ties are the norm), then a request matrix: every source {base, hash-only GSI, hash+range GSI, LSI} x every partition value incl. an absent one x sort-key condition {none,=,<,<=,>,>=,BETWEEN,begins_with} with boundary operands x filter {none, 2 typed random filters} x direction; plus Scans of every source with filters. Oracle: model set + non-decreasing/non-increasing sort key + Count=len(Items). non-trivial = result has >=2 items or excludes >=1 item of the addressed partition; distinct by (adapter, source, condition kind, filter skeleton, direction, result size class).",
 		assumptions: commonAssumptions}})
 }
 
@@ -359,6 +360,15 @@ func (p *c02) RunCase(ctx *runner.Ctx) runner.CaseResult {
 							rr.Rng = r
 						}
 						op := queryOp(spec.Name, src.index, kc, flt, values, rev, rr)
+						// read consistency is a request option that never changes WHAT is returned: strongly consistent reads
+						// of the table and of its local indexes (a global index only has eventually consistent reads, which
+						// is not asked for here), and the explicit "false" anywhere
+						switch {
+						case r.Intn(4) == 0 && (src.index == "" || strings.HasPrefix(src.index, "lsi")):
+							op.Consistent = true
+						case r.Intn(4) == 0:
+							op.ConsistentFalse = true
+						}
 						if !check(op, fmt.Sprintf("query|%s|%s|%s|%v", src.index, sk, fsk, rev)) {
 							return x.r
 						}
@@ -376,6 +386,12 @@ func (p *c02) RunCase(ctx *runner.Ctx) runner.CaseResult {
 				fsk = flt.Skeleton()
 			}
 			op := scanOp(spec.Name, src.index, flt, values, refmodel.RenderOpts{})
+			switch {
+			case fi%2 == 1 && (src.index == "" || strings.HasPrefix(src.index, "lsi")):
+				op.Consistent = true
+			case fi == 2:
+				op.ConsistentFalse = true
+			}
 			if !check(op, fmt.Sprintf("scan|%s|%s", src.index, fsk)) {
 				return x.r
 			}
